@@ -7,6 +7,7 @@ import (
 	"time"
 
 	tchannel "github.com/uber/tchannel-go"
+	"github.com/uber/tchannel-go/simrt"
 	"vsim/wire"
 )
 
@@ -254,12 +255,37 @@ func (o *wireOracle) lateFrameOrigin(late *TapFrame, terminalEv int64) string {
 			if recv != em || l == late.Conn {
 				continue
 			}
+			// the relay forwards in order: among source frames with this very payload, the late
+			// frame is the one after those it has already re-emitted on the caller's link
+			already := 0
+			for _, pf := range late.Conn.Frames[late.Dir] {
+				if pf.Seq >= late.Seq {
+					break
+				}
+				if pf.F != nil && pf.F.Type == late.F.Type && pf.F.ID == late.F.ID && len(pf.F.Raw) == len(late.F.Raw) &&
+					string(pf.F.Raw[wire.HeaderSize:]) == string(late.F.Raw[wire.HeaderSize:]) {
+					already++
+				}
+			}
+			var cands []*TapFrame
 			for _, tf := range l.Frames[d] {
 				if tf.REv == 0 || tf.REv > late.WEv || tf.F == nil || len(tf.F.Raw) != len(late.F.Raw) || tf.F.Type != late.F.Type {
 					continue
 				}
-				if string(tf.F.Raw[wire.HeaderSize:]) == string(late.F.Raw[wire.HeaderSize:]) && (src == nil || tf.REv > src.REv) {
-					src = tf
+				if string(tf.F.Raw[wire.HeaderSize:]) == string(late.F.Raw[wire.HeaderSize:]) {
+					cands = append(cands, tf)
+				}
+			}
+			// (frames of other calls with the same payload are rare enough to ignore: ids differ
+			// per call on the source link, so keep only the id most candidates share)
+			byID := map[uint32][]*TapFrame{}
+			for _, c := range cands {
+				byID[c.F.ID] = append(byID[c.F.ID], c)
+			}
+			for _, id := range simrt.SortedKeys(byID) {
+				cs := byID[id]
+				if already < len(cs) && (src == nil || cs[already].REv > src.REv) {
+					src = cs[already]
 				}
 			}
 		}
@@ -396,6 +422,11 @@ func (w *World) checkPools(faultFree bool) {
 	// cancellation, no relay-originated failure)
 	for _, c := range w.Calls {
 		if !c.Done || !c.completedNormally() {
+			faultFree = false
+		}
+		if c.Spec.Mode == "respfirst" || (c.H.Entered && !c.H.ArgsRead) {
+			// a handler that answers without consuming its whole request leaves request frames
+			// queued that nobody will read: application behaviour, not a clean completion
 			faultFree = false
 		}
 	}
